@@ -393,6 +393,11 @@ class FractionalSymbolicDuration(object):
         new_den = np.lcm(dens[0], dens[1])
         a_mult = new_den // dens
         new_num = np.dot(a_mult, [self.numerator, sd.numerator])
+        # reduce, so that the integers are only bounded (approximated) when
+        # the sum itself needs a larger denominator
+        common = np.gcd(new_num, new_den)
+        if common > 1:
+            new_num, new_den = new_num // common, new_den // common
 
         if self.add_components is None and sd.add_components is None:
             add_components = [
